@@ -241,6 +241,7 @@ func buildBaselines(es []*entry) ([]*baseline, error) {
 type family struct {
 	name      string
 	udpFramed bool // datagram entries receive frame(input) instead of the input itself
+	bigAlloc  bool // inputs that can make a decoder allocate hundreds of MiB: the worker releases such memory after every evaluation
 	n         int64
 	chunk     int64 // inputs per job
 	heavy     bool  // 100 KB..10 MiB inputs: few jobs in flight at a time
@@ -407,7 +408,7 @@ type listedCase struct {
 
 func listFamily(name, bounds string, chunk int64, heavy bool, cases []listedCase) *family {
 	framed := name != "nest-head" && name != "udp-short"
-	return &family{name: name, udpFramed: framed, n: int64(len(cases)), chunk: chunk, heavy: heavy, bounds: bounds, gen: func(i int64) ([]byte, string, []int) {
+	return &family{name: name, udpFramed: framed, bigAlloc: name != "udp-short", n: int64(len(cases)), chunk: chunk, heavy: heavy, bounds: bounds, gen: func(i int64) ([]byte, string, []int) {
 		c := cases[i]
 		b := c.make()
 		return b, c.label, c.ents
@@ -516,7 +517,7 @@ func buildFamilies(c *famCtx, only string) ([]*family, error) {
 	}
 	fams = append(fams, alpha("alphabet24-len3", alphabet24, 3), alpha("alphabet24-len4", alphabet24, 4))
 	if c.thorough {
-		fams = append(fams, alpha("alphabet24-len5", alphabet24, 5), alpha("alphabet12-len6", alphabet12, 6), alpha("alphabet8-len7", alphabet8, 7))
+		fams = append(fams, alpha("alphabet24-len5", alphabet24, 5), alpha("alphabet12-len6", alphabet12, 6), alpha("alphabet8-len7", alphabet8, 7), alpha("alphabet8-len8", alphabet8, 8))
 	} else {
 		fams = append(fams, alpha("alphabet12-len5", alphabet12, 5))
 	}
@@ -539,7 +540,7 @@ func buildFamilies(c *famCtx, only string) ([]*family, error) {
 			offs = append(offs, total)
 			total += int64(len(bl.Bytes)) * 255
 		}
-		fams = append(fams, &family{name: "mutate1", n: total, chunk: 8192, udpFramed: true,
+		fams = append(fams, &family{name: "mutate1", n: total, chunk: 8192, udpFramed: true, bigAlloc: true,
 			bounds: "every baseline x every byte position x each of the 255 other values, on the baseline's own entries",
 			gen: func(i int64) ([]byte, string, []int) {
 				k := sort.Search(len(offs), func(j int) bool { return offs[j] > i }) - 1
@@ -563,7 +564,7 @@ func buildFamilies(c *famCtx, only string) ([]*family, error) {
 				sel = append(sel, bl)
 			}
 		}
-		a := alphabet24
+		a := alphabet12 // (the 24-symbol alphabet adds INT/LONG length heads: tens of thousands of GiB-sized allocations, hours of page-table work)
 		var offs []int64
 		total := int64(0)
 		for _, bl := range sel {
@@ -571,7 +572,7 @@ func buildFamilies(c *famCtx, only string) ([]*family, error) {
 			n := int64(len(bl.Bytes))
 			total += n * (n - 1) / 2 * int64(len(a)*len(a))
 		}
-		fams = append(fams, &family{name: "mutate2", n: total, chunk: 16384, udpFramed: true,
+		fams = append(fams, &family{name: "mutate2", n: total, chunk: 16384, udpFramed: true, bigAlloc: true,
 			bounds: fmt.Sprintf("%d baselines (packets, argument buffers, attribute sets and the all-non-default encoding of every struct, 2..160 bytes) x every pair of positions p<q x every pair of symbols of the %d-symbol alphabet % x, on the baseline's own entries", len(sel), len(a), a),
 			gen: func(i int64) ([]byte, string, []int) {
 				k := sort.Search(len(offs), func(j int) bool { return offs[j] > i }) - 1
